@@ -49,7 +49,9 @@ def parseReply (t : String) : Option Reply :=
 def parsePReply (t : String) : Option PReply :=
   match t.splitOn ":" with
   | ["ok"] => some (.ad { result := true })
+  | ["ok", cl] => some (.ad { result := true, claim := some (unDash cl) })   -- the success reply names a connect id itself
   | ["fail", m] => some (.ad { result := false, err := unDash m })
+  | ["fail", m, cl] => some (.ad { result := false, err := unDash m, claim := some (unDash cl) })
   | ["unsup"] => some (.ad { result := false, unsupported := true })
   | ["readerr"] => some .readErr
   | _ => none
